@@ -19,6 +19,7 @@
 package cstate
 
 import (
+	"encoding/json"
 	"fmt"
 	"math/big"
 
@@ -105,8 +106,75 @@ func saveState(db kaidb.KeyValueStore, state LatestBlockState) {
 	}
 
 	rawdb.WriteConsensusStateHeight(batch, state.LastBlockHeight, *sp)
+	rawdb.WriteConsensusPriorities(batch, state.LastBlockHeight, encodePriorities(state))
 
 	batch.Write()
+}
+
+// Validator-set records are keyed by ValidatorSet.Hash(), which covers members and
+// voting powers only: the last, current and next set of a state usually share one
+// record, so the proposer priorities (and with them the proposer) of each set are
+// saved per height and put back when the state is loaded.
+type setPriorities struct {
+	Proposer   common.Address `json:"proposer"`
+	Priorities []int64        `json:"priorities"`
+}
+
+type statePriorities struct {
+	Last    *setPriorities `json:"last,omitempty"`
+	Current *setPriorities `json:"current,omitempty"`
+	Next    *setPriorities `json:"next,omitempty"`
+}
+
+func prioritiesOf(vs *types.ValidatorSet) *setPriorities {
+	if vs == nil || len(vs.Validators) == 0 {
+		return nil
+	}
+	p := &setPriorities{Priorities: make([]int64, len(vs.Validators))}
+	for i, val := range vs.Validators {
+		p.Priorities[i] = val.ProposerPriority
+	}
+	if proposer := vs.GetProposer(); proposer != nil {
+		p.Proposer = proposer.Address
+	}
+	return p
+}
+
+func encodePriorities(state LatestBlockState) []byte {
+	bz, err := json.Marshal(statePriorities{
+		Last:    prioritiesOf(state.LastValidators),
+		Current: prioritiesOf(state.Validators),
+		Next:    prioritiesOf(state.NextValidators),
+	})
+	if err != nil {
+		panic(err)
+	}
+	return bz
+}
+
+// restorePriorities puts saved priorities back on a loaded set (same members in the same order).
+func restorePriorities(vs *types.ValidatorSet, p *setPriorities) {
+	if vs == nil || p == nil || len(p.Priorities) != len(vs.Validators) {
+		return
+	}
+	for i, val := range vs.Validators {
+		val.ProposerPriority = p.Priorities[i]
+	}
+	if _, proposer := vs.GetByAddress(p.Proposer); proposer != nil {
+		vs.Proposer = proposer
+	}
+}
+
+func loadPriorities(db kaidb.Reader, height uint64) *statePriorities {
+	bz := rawdb.ReadConsensusPriorities(db, height)
+	if bz == nil {
+		return nil
+	}
+	var p statePriorities
+	if err := json.Unmarshal(bz, &p); err != nil {
+		return nil
+	}
+	return &p
 }
 
 // PruneState prunes consensus state height in range of [from, to)
@@ -128,6 +196,7 @@ func (s *dbStore) PruneState(from, to uint64) (uint64, uint64, uint64) {
 			if err := rawdb.DeleteConsensusStateHeight(s.db, i); err != nil {
 				log.Error("Failed to prune consensus state", "height", i)
 			} else {
+				_ = rawdb.DeleteConsensusPriorities(s.db, i)
 				prunedStates++
 				prunedBytes += uint64(len(bz))
 			}
@@ -226,6 +295,11 @@ func loadStateAtHeight(db kaidb.Database, height uint64) *LatestBlockState {
 		panic(err)
 	}
 	state.LastHeightValidatorsChanged = nValsInfo.LastHeightChanged
+	if p := loadPriorities(db, height); p != nil {
+		restorePriorities(state.LastValidators, p.Last)
+		restorePriorities(state.Validators, p.Current)
+		restorePriorities(state.NextValidators, p.Next)
+	}
 
 	cparams := rawdb.ReadConsensusParamsInfo(db, common.BytesToHash(sp.ConsensusParamsInfoHash))
 	if cparams == nil {
@@ -253,6 +327,9 @@ func (s *dbStore) LoadValidators(height uint64) (*types.ValidatorSet, error) {
 	vip, err := types.ValidatorSetFromProto(valInfo.ValidatorSet)
 	if err != nil {
 		return nil, err
+	}
+	if p := loadPriorities(s.db, height); p != nil {
+		restorePriorities(vip, p.Last)
 	}
 	return vip, nil
 }
